@@ -5,6 +5,7 @@ from . import helpers_rules as H
 from . import alias_rules as A
 
 META = {
+    'claim_added': 'Also decided: node texts are hashed only for ScalarNodes (I7), format strings are literals (I10), table lookups are not guarded by membership in another table (I1b), converting handlers cannot fail themselves, recogniser exits return pairs, whatever resolves to bool/float (and, as known findings, int/timestamp) is in the domain of the PyYAML constructor that runs.',
     'level': 'other',
     'technique': 'static: interprocedural escape sets (explicit raises minus enclosing handlers, through name-resolved callees, '
                  'dead code pruned by the CFG), converting-handler check at every user-code call site, closed table of implicit '
